@@ -293,25 +293,26 @@ def match_known(v, known):
 # ---------------------------------------------------------------- shrinking
 
 def shrink_ops(binpath, ops, still_fails, budget=30):
-    """greedy delta debugging over the op lines of one case (first line is the `case` line)"""
+    """delta debugging (complement reduction) over the op lines of one case; ops[0] is the `case` line"""
     head, body = ops[0], ops[1:]
-    tried = 0
-    chunk = max(1, len(body) // 2)
-    while chunk >= 1 and tried < budget:
-        i = 0
-        progress = False
-        while i < len(body) - 0 and tried < budget:
+    n = 2
+    while len(body) >= 2 and budget > 0:
+        chunk = -(-len(body) // n)
+        reduced = False
+        for i in range(0, len(body), chunk):
             cand = body[:i] + body[i + chunk:]
-            if len(cand) == len(body) or not cand and False:
-                break
-            tried += 1
+            if not cand:
+                continue
+            budget -= 1
             if still_fails([head] + cand):
-                body = cand
-                progress = True
-            else:
-                i += chunk
-        if not progress or chunk == 1:
-            chunk //= 2
+                body, n, reduced = cand, max(n - 1, 2), True
+                break
+            if budget <= 0:
+                break
+        if not reduced:
+            if n >= len(body):
+                break
+            n = min(len(body), n * 2)
     return [head] + body
 
 
